@@ -92,7 +92,7 @@ def computation_memory(computation: VariableComputationNode) -> float:
 
     """
     neighbors = set(
-        (n for l in computation.neighbors for n in l.nodes if n not in computation.name)
+        (n for l in computation.links for n in l.nodes if n not in computation.name)
     )
     return len(neighbors) * UNIT_SIZE
 
